@@ -10,7 +10,7 @@ impl OpcodeKind {
 //@ret r
 //@props C04 C05 C06 C10 C09
 //@contract
-    ensures r as int == ref_code(self), // @C04
+    ensures r as int == ref_code(self), // @C04 @C05 @C06 @C10 @C12 @C17
 //@endfn
 }
 
@@ -874,9 +874,7 @@ pub fn get_random_module(&self, source: &mut GenerationSource) -> (r: Result<VfT
 //@sigsubst Result<()> => Result<(), VfError>
 //@subst (0..len).map(|_| source.gen_u8()).collect() => vf_gen_u8_vec(source, len)
 //@rewrite R14? process_stack_ops self.process_stack_ops($ARGS, Ghost(r), Ghost(RefArg { idx: 0 }))
-//@substall? (bytes.len() as i32).to_le_bytes() => vf_i32_to_le_bytes(bytes.len() as i32)
-//@substall? (bytes.len() as u32).to_le_bytes() => vf_u32_to_le_bytes(bytes.len() as u32)
-//@substall? (bytes.len() as u64).to_le_bytes() => vf_u64_to_le_bytes(bytes.len() as u64)
+//@rewrite R4
 //@contract
     requires
         old(self).rel(r), contig(r), !old(self).unsafe_mutations,
@@ -911,8 +909,7 @@ pub fn get_random_module(&self, source: &mut GenerationSource) -> (r: Result<VfT
 //@subst (0..len).map(|_| source.gen_ascii_char()).collect() => vf_gen_ascii_string(source, len)
 //@rewrite R14? process_stack_ops self.process_stack_ops($ARGS, Ghost(r), Ghost(RefArg { idx: 0 }))
 //@substall? s.into_bytes() => vf_string_into_bytes(s)
-//@substall? (bytes.len() as u32).to_le_bytes() => vf_u32_to_le_bytes(bytes.len() as u32)
-//@substall? (bytes.len() as u64).to_le_bytes() => vf_u64_to_le_bytes(bytes.len() as u64)
+//@rewrite R4
 //@prelude
         let ghost mut gtext: Seq<u8> = Seq::empty();
 //@contract
@@ -1169,7 +1166,7 @@ pub fn get_random_module(&self, source: &mut GenerationSource) -> (r: Result<VfT
             assert(chunk.subrange(1, chunk.len() as int) =~= gtext);
             assert(enc_ok(opcode, chunk)); // @C04
             assert(chunk.len() >= 1 && chunk[0] == ref_code(opcode) as u8); // @C04 @C11 @C12 @C17
-            assert(self.rel(ref_step(opcode, RefArg { idx: gidx }, r))); // @C17 @C02
+            assert(self.rel(ref_step(opcode, RefArg { idx: gidx }, r))); // @C17 @C02 @C01
             assert(self.emit_post(old(self), r, opcode, opcode, RefArg { idx: gidx }, chunk));
         }
 //@arm BinGet
@@ -1198,7 +1195,7 @@ pub fn get_random_module(&self, source: &mut GenerationSource) -> (r: Result<VfT
             let chunk = self.output@.subrange(old(self).output@.len() as int, self.output@.len() as int);
             assert(self.output@ =~= old(self).output@ + chunk);
             assert(chunk.len() >= 1 && chunk[0] == ref_code(opcode) as u8); // @C04 @C11 @C12 @C17
-            assert(self.rel(ref_step(opcode, RefArg { idx: gidx }, r))); // @C17 @C02
+            assert(self.rel(ref_step(opcode, RefArg { idx: gidx }, r))); // @C17 @C02 @C01
             assert(self.emit_post(old(self), r, opcode, opcode, RefArg { idx: gidx }, chunk));
         }
 //@arm LongBinGet
@@ -1225,7 +1222,7 @@ pub fn get_random_module(&self, source: &mut GenerationSource) -> (r: Result<VfT
             let chunk = self.output@.subrange(old(self).output@.len() as int, self.output@.len() as int);
             assert(self.output@ =~= old(self).output@ + chunk);
             assert(chunk.len() >= 1 && chunk[0] == ref_code(opcode) as u8); // @C04 @C11 @C12 @C17
-            assert(self.rel(ref_step(opcode, RefArg { idx: gidx }, r))); // @C17 @C02
+            assert(self.rel(ref_step(opcode, RefArg { idx: gidx }, r))); // @C17 @C02 @C01
             assert(self.emit_post(old(self), r, opcode, opcode, RefArg { idx: gidx }, chunk));
         }
 //@arm Ext1
@@ -1634,9 +1631,7 @@ pub fn get_random_module(&self, source: &mut GenerationSource) -> (r: Result<VfT
 //@sigsubst Result<()> => Result<(), VfError>
 //@subst (0..len).map(|_| source.gen_u8()).collect() => vf_gen_u8_vec(source, len)
 //@rewrite R14? process_stack_ops self.process_stack_ops($ARGS, Ghost(r), Ghost(RefArg { idx: 0 }))
-//@substall? (bytes.len() as i32).to_le_bytes() => vf_i32_to_le_bytes(bytes.len() as i32)
-//@substall? (bytes.len() as u32).to_le_bytes() => vf_u32_to_le_bytes(bytes.len() as u32)
-//@substall? (bytes.len() as u64).to_le_bytes() => vf_u64_to_le_bytes(bytes.len() as u64)
+//@rewrite R4
 //@contract
     requires
         old(self).rel(r),
@@ -1664,8 +1659,7 @@ pub fn get_random_module(&self, source: &mut GenerationSource) -> (r: Result<VfT
 //@subst (0..len).map(|_| source.gen_ascii_char()).collect() => vf_gen_ascii_string(source, len)
 //@rewrite R14? process_stack_ops self.process_stack_ops($ARGS, Ghost(r), Ghost(RefArg { idx: 0 }))
 //@substall? s.into_bytes() => vf_string_into_bytes(s)
-//@substall? (bytes.len() as u32).to_le_bytes() => vf_u32_to_le_bytes(bytes.len() as u32)
-//@substall? (bytes.len() as u64).to_le_bytes() => vf_u64_to_le_bytes(bytes.len() as u64)
+//@rewrite R4
 //@prelude
         let ghost mut gtext: Seq<u8> = Seq::empty();
 //@contract
